@@ -41,6 +41,7 @@ class Shim:
         L.iv_map_rotation.argtypes = [C.c_int, C.c_int, C.c_uint, C.c_uint, C.c_float, C.c_int, C.c_int, C.c_uint]
         L.iv_map_apply_to.argtypes = [C.c_int, F32P, C.c_int]
         L.iv_imp_array.argtypes = [F32P, C.c_uint, C.c_float]
+        L.iv_imp_add.argtypes = [C.c_int, C.c_int]
         L.iv_imp_file.argtypes = [C.c_char_p, C.c_double]
         L.iv_imp_model.argtypes = [C.c_int, C.c_uint, C.c_float, F64P]
         L.iv_imp_make.argtypes = [C.c_uint, C.c_float, C.c_double, C.c_double, C.c_double, C.c_int, C.c_double,
@@ -78,6 +79,8 @@ class Shim:
     def reset(self, n, nb=1):
         self._ck(self.lib.iv_reset(int(n), int(nb)), "reset")
         self.n, self.nb = int(n), int(nb)
+        self._map_in = {}
+        self._napply = 0
 
     def resize_only(self, n, nb):
         self.lib.iv_resize_only(int(n), int(nb))
@@ -144,7 +147,7 @@ class Shim:
 
     # -- maps
     def map_kick(self, i, o, it, axis, clamp=0):
-        return self._ck(self.lib.iv_map_kick(i, o, it, clamp, axis), "kick")
+        return self._reg_in(i, self._ck(self.lib.iv_map_kick(i, o, it, clamp, axis), "kick"))
 
     def map_set_offset(self, m, off, prelude=True):
         """install a displacement field.  In half of the calls (decided by a hash of the field, so a case stays a pure
@@ -201,18 +204,18 @@ class Shim:
         return out
 
     def map_rf_linear(self, i, o, angle, frf, it, clamp=0):
-        return self._ck(self.lib.iv_map_rf_linear(i, o, angle, frf, it, clamp), "rf_linear")
+        return self._reg_in(i, self._ck(self.lib.iv_map_rf_linear(i, o, angle, frf, it, clamp), "rf_linear"))
 
     def map_rf_sin(self, i, o, revpart, V, frf, V0, it, clamp=0):
-        return self._ck(self.lib.iv_map_rf_sin(i, o, revpart, V, frf, V0, it, clamp), "rf_sin")
+        return self._reg_in(i, self._ck(self.lib.iv_map_rf_sin(i, o, revpart, V, frf, V0, it, clamp), "rf_sin"))
 
     def map_dynrf_linear(self, i, o, angle, revpart, frf, phasespread, amplspread, modampl, modstep, steps, it, clamp=0):
-        return self._ck(self.lib.iv_map_dynrf_linear(i, o, self.n, self.n, angle, revpart, frf, phasespread, amplspread,
-                                                     modampl, modstep, steps, it, clamp), "dynrf_linear")
+        return self._reg_in(i, self._ck(self.lib.iv_map_dynrf_linear(i, o, self.n, self.n, angle, revpart, frf, phasespread, amplspread,
+                                                     modampl, modstep, steps, it, clamp), "dynrf_linear"))
 
     def map_dynrf_sin(self, i, o, revpart, V, frf, V0, phasespread, amplspread, modampl, modstep, steps, it, clamp=0):
-        return self._ck(self.lib.iv_map_dynrf_sin(i, o, self.n, self.n, revpart, V, frf, V0, phasespread, amplspread,
-                                                  modampl, modstep, steps, it, clamp), "dynrf_sin")
+        return self._reg_in(i, self._ck(self.lib.iv_map_dynrf_sin(i, o, self.n, self.n, revpart, V, frf, V0, phasespread, amplspread,
+                                                  modampl, modstep, steps, it, clamp), "dynrf_sin"))
 
     def map_dyn_past(self, m, maxn=400000):
         out = np.zeros(2 * maxn, np.float32)
@@ -221,7 +224,7 @@ class Shim:
 
     def map_drift(self, i, o, slip, E0, it, clamp=0):
         s = np.ascontiguousarray(slip, np.float32)
-        return self._ck(self.lib.iv_map_drift(i, o, s, len(s), E0, it, clamp), "drift")
+        return self._reg_in(i, self._ck(self.lib.iv_map_drift(i, o, s, len(s), E0, it, clamp), "drift"))
 
     def map_wake(self, i, o, field, it, clamp=0):
         return self._ck(self.lib.iv_map_wake(i, o, field, it, clamp), "wakemap")
@@ -230,15 +233,36 @@ class Shim:
         self._ck(self.lib.iv_map_wake_update(m), "wake_update")
 
     def map_fp(self, i, o, fptype, fptrack, e1, dt):
-        return self._ck(self.lib.iv_map_fp(i, o, self.n, self.n, fptype, fptrack, e1, dt), "fp")
+        return self._reg_in(i, self._ck(self.lib.iv_map_fp(i, o, self.n, self.n, fptype, fptrack, e1, dt), "fp"))
 
     def map_identity(self, i, o):
-        return self._ck(self.lib.iv_map_identity(i, o), "identity")
+        return self._reg_in(i, self._ck(self.lib.iv_map_identity(i, o), "identity"))
 
     def map_rotation(self, i, o, angle, it, clamp, rotmapsize):
-        return self._ck(self.lib.iv_map_rotation(i, o, self.n, self.n, angle, it, clamp, rotmapsize), "rotation")
+        return self._reg_in(i, self._ck(self.lib.iv_map_rotation(i, o, self.n, self.n, angle, it, clamp, rotmapsize), "rotation"))
+
+    def _reg_in(self, i, h):
+        if not hasattr(self, "_map_in"):
+            self._map_in = {}
+        self._map_in[h] = i
+        return h
 
     def map_apply(self, m):
+        """apply a map.  For every map except the wake kick (which by design reads the profile), one application in three
+        first makes the x/y PROJECTIONS of the input grid stale: all zeros, or unrelated positive values.  The projections
+        are caches that main.cpp refreshes only for the first of its three grids; a transport step must depend on the grid
+        data alone (round-7 seed C01g and round-5 seed C05e skip 'empty' slices by looking at that cache)."""
+        i = getattr(self, "_map_in", {}).get(m)
+        self._napply = getattr(self, "_napply", 0) + 1
+        if i is not None and not os.environ.get("VERIF_NO_STALE_PROJECTION"):
+            import zlib
+            hsh = zlib.crc32(("%d/%d/%d" % (self._napply, self.n, m)).encode())
+            if hsh % 3 == 0:
+                r = np.random.Generator(np.random.PCG64(hsh))
+                for b in range(self.nb):
+                    for axis in (0, 1):
+                        v = np.zeros(self.n, np.float32) if (hsh // 3) % 2 == 0 else r.random(self.n).astype(np.float32)
+                        self.lib.iv_ps_set_projection(i, axis, b, v)
         self._ck(self.lib.iv_map_apply(m), "apply")
 
     def map_apply_to(self, m, xy):
@@ -253,6 +277,11 @@ class Shim:
         reim[0::2] = z.real
         reim[1::2] = z.imag
         return self._ck(self.lib.iv_imp_array(reim, len(z), fmax), "imp_array")
+
+    def imp_add(self, h, z, fmax=1.0):
+        """Impedance::operator+= on the existing object (every field built on it sees the change)"""
+        other = self.imp_array(np.ascontiguousarray(z, np.complex64), fmax)
+        self._ck(self.lib.iv_imp_add(h, other), "imp_add")
 
     def imp_file(self, path, fmax):
         return self._ck(self.lib.iv_imp_file(path.encode(), fmax), "imp_file")
